@@ -105,6 +105,10 @@ def run(ctx, chk):
     # the argument delivered for a half-precision head (0xF9): the value the two bytes denote
     chk.rule("C08.half-classes", "the float2 callback's argument: every one of the 65536 two-byte patterns reaches the action of its IEEE-754 "
                                  "class in the half decoder (infinity / NaN / scaled value, negated iff the sign bit is set); shared with C15")
-    from props.c15 import check_half_classes
+    from props.c15 import check_half_classes, check_bits_decode
     check_half_classes(chk, prog, eff, prefix="C08")
+    chk.rule("C08.bits-decode", "the float4 / float8 callbacks receive exactly the encoded value: the loaders return the bit "
+                                "reinterpretation of the big-endian integer of the same width (shared with C15.bits-decode)")
+    import ownership as _O8
+    check_bits_decode(chk, "C08.bits-decode", prog, _O8.PathCache(prog, eff))
     chk.exhaustive = True
